@@ -99,6 +99,7 @@ def run_patch(mut, src_root):
             return mid, 'inapplicable', 'patch does not apply: %s' % (
                 pr.stdout + pr.stderr)[-200:]
         bad = []
+        fired = []
         for pid in mut['props']:
             env = dict(os.environ, TXSA_EVIDENCE_OUT=os.path.join(
                 tmp, 'ev-%s.json' % pid), TXSA_NO_REPLAY='1')
@@ -109,6 +110,12 @@ def run_patch(mut, src_root):
             keys = re.findall(r'^FINDING (\S+)', pr.stdout, re.M)
             if pr.returncode != 0:
                 bad.append((pid, pr.returncode, keys[:3]))
+            if pr.returncode == 1 and keys:
+                fired.append('%s fired: %s' % (pid, keys[0]))
+        if mut['kind'] == 'break':
+            if fired:
+                return mid, 'caught', '; '.join(fired)
+            return mid, 'MISSED', str(bad)[:300]
         if bad:
             return mid, 'FALSE-ALARM', str(bad)[:400]
         return mid, 'silent', ''
